@@ -56,8 +56,10 @@ func (a Any) HoverAtPos(ctx context.Context, pos hcl.Pos) *lang.HoverData {
 			Elems: make([]schema.Constraint, len(elemTypes)),
 		}
 		for i, elemType := range elemTypes {
-			cons.Elems[i] = schema.LiteralType{
-				Type: elemType,
+			// any element may be any expression of the
+			// element's type, rather than just a literal
+			cons.Elems[i] = schema.AnyExpression{
+				OfType: elemType,
 			}
 		}
 
